@@ -541,6 +541,15 @@ Array<int> String::chars() const
 
 void String::assign(const char* b, int n)
 {
+	const char* s0 = str();
+	if (b >= s0 && b <= s0 + _len) // a piece of this same string (s = *s + k): move it in place
+	{
+		char* s = str();
+		memmove(s, b, n);
+		s[n] = '\0';
+		_len = n;
+		return;
+	}
 	resize(n, false);
 	char* s = str();
 	memcpy(s, b, _len);
